@@ -4,7 +4,7 @@
        so C02's theorem xref_stream_any_W_Index reads it back;
    (2) the trailer dictionary after the updates of write_cross_reference_stream and the three removals of
        decode_xref_stream;
-   (3) load (save_stream d) = reloaded_stream d for every savable document outside the known class: the objects,
+   (3) load (so_bytes (save_core XStream d)) = reloaded_stream d for every savable_core document outside the known class: the objects,
        plus the cross-reference stream object itself (number max_id + 1), max_id + 1. *)
 From LV Require Import Base.Bytes Base.Sx Model.Obj Model.Writer Model.Parser Model.Save Model.Xref Model.Loader
   Model.Utf Gen.Lex Gen.SaveFmt Proofs.LexProofs Proofs.RealProofs Proofs.ObjectRtProofs Proofs.SaveProofs
@@ -394,9 +394,9 @@ Qed.
 
 
 
-Lemma save_stream_ok d : savable d -> so_status (save XStream d) = SaveOk.
+Lemma save_stream_ok d : savable_core d -> so_status (save_core XStream d) = SaveOk.
 Proof.
-  intro S. unfold save. pose proof (sv_max_id d S) as Hm.
+  intro S. unfold save_core. pose proof (sv_max_id d S) as Hm.
   replace (u32_top <=? d_max_id d) with false by (symmetry; apply N.leb_gt; unfold u32_top, u32_mod in *; lia).
   rewrite (sv_mark d S). cbn [negb]. destruct (save_body d) as [[b xs] x].
   replace (u32_top <=? d_max_id d + 1) with false by (symmetry; apply N.leb_gt; unfold u32_top, u32_mod in *; lia).
@@ -448,10 +448,10 @@ Proof.
 Qed.
 
 
-(* facts about the stream dictionary of a savable document *)
+(* facts about the stream dictionary of a savable_core document *)
 Section StreamDict.
   Variable d : doc.
-  Hypothesis S : savable d.
+  Hypothesis S : savable_core d.
   Hypothesis K : known_deep d = false.
   Variable secs : list xsection.
   Variable len : nat.
@@ -511,12 +511,12 @@ End StreamDict.
 
 
 Theorem load_save_stream d :
-  savable d -> known_deep d = false -> small_file XStream d ->
-  load (save_stream d) = LOk (reloaded_stream d) XTStream.
+  savable_core d -> known_deep d = false -> small_file_core XStream d ->
+  load (so_bytes (save_core XStream d)) = LOk (reloaded_stream d) XTStream.
 Proof.
   intros S K Hsmall.
   pose proof (save_stream_ok d S) as Hok.
-  destruct (save_ok_shape XStream d Hok) as [mid [Hbytes Hmid]]. cbv zeta in Hmid.
+  destruct (save_core_shape XStream d Hok) as [mid [Hbytes Hmid]]. cbv zeta in Hmid.
   pose proof (sv_max_id d S) as Hmax.
   set (v := d_version d). set (m := d_binary_mark d). set (objs := d_objects d).
   set (HM := header_bytes d ++ mark_bytes d).
@@ -531,7 +531,7 @@ Proof.
   set (sx := startxref_bytes n) in *.
   set (new_id := d_max_id d + 1) in *.
   assert (Hsm : Loader.blen (body_of d ++ mid ++ sx) < u32_mod).
-  { unfold small_file in Hsmall. rewrite Hbytes in Hsmall. exact Hsmall. }
+  { unfold small_file_core in Hsmall. rewrite Hbytes in Hsmall. exact Hsmall. }
   assert (Hn_len : n = Loader.blen (body_of d)) by reflexivity.
   assert (Hn : n < u32_mod).
   { rewrite Hn_len. unfold Loader.blen in *. rewrite app_length in Hsm. lia. }
@@ -577,7 +577,7 @@ Proof.
   { cbn [top_wf]. split; [exact Hwf|]. rewrite Hget. reflexivity. }
   assert (Hnest' : (nest (OStream t6 content) <= MAX_DEPTH)%nat) by exact Hnest.
   (* views of the file *)
-  unfold save_stream. rewrite Hbytes. fold file.
+   rewrite Hbytes. fold file.
   assert (E1 : file = bs "%PDF-" ++ v ++ x0a :: x25 :: m ++ x0a :: (objs_bytes objs ++ mid ++ sx)).
   { unfold file. rewrite Ebody. unfold HM, header_bytes, mark_bytes. fold v. fold m.
     repeat (rewrite <- app_assoc; cbn [app]). reflexivity. }
